@@ -37,7 +37,7 @@ fn pick_world(rng: &mut Rng, ws: &[(&str, u32)]) -> String {
     ws[rng.weighted(&w)].0.to_string()
 }
 
-const MAP_WORLDS: &[(&str, u32)] = &[("M16", 10), ("Mpod", 4), ("M208", 2), ("M64a", 2), ("M5", 2), ("M6", 2), ("Mz", 2), ("Mzz", 1)];
+const MAP_WORLDS: &[(&str, u32)] = &[("M16", 10), ("Mpod", 4), ("M208", 2), ("M64a", 2), ("M5", 2), ("M6", 2), ("Mz", 2), ("Mzz", 1), ("Ms", 2)];
 
 /// State-building operations that every map profile mixes in.
 const MAP_BUILD: &[(Kd, u32)] = &[(Kd::Insert, 30), (Kd::Remove, 14), (Kd::Extend, 3), (Kd::Clear, 1), (Kd::Reserve, 1), (Kd::ShrinkTo, 1), (Kd::ShrinkToFit, 1), (Kd::WithCapacity, 1), (Kd::Get, 2), (Kd::Entry, 2), (Kd::Retain, 1)];
@@ -254,7 +254,7 @@ fn spec_for_inner(prop: &str, thorough: bool, rng: &mut Rng) -> RunSpec {
         "C02" => {
             // safety monitors under cancellation: every iterator/drain/extract_if/entry may be dropped or
             // forgotten part-way; lying size hints; all layouts
-            let world = pick_world(rng, &[("M16", 3), ("Mpod", 2), ("M208", 2), ("M64a", 3), ("M5", 1), ("M6", 1), ("Mz", 1)]);
+            let world = pick_world(rng, &[("M16", 3), ("Mpod", 2), ("M208", 2), ("M64a", 3), ("M5", 1), ("M6", 1), ("Mz", 1), ("Ms", 1)]);
             let cfg = base_cfg(rng, 3);
             let mut g = gen(Family::Map, universe, with(MAP_CORE, &[(Kd::Iter, 8), (Kd::IntoIter, 8), (Kd::Drain, 8), (Kd::ExtractIf, 8), (Kd::Entry, 6), (Kd::Extend, 4), (Kd::CloneFrom, 2), (Kd::GetMany, 2), (Kd::FillNoAlloc, 1)], rng));
             g.allow_forget = true;
@@ -315,7 +315,7 @@ fn spec_for_inner(prop: &str, thorough: bool, rng: &mut Rng) -> RunSpec {
         "C08" => {
             let world = pick_world(rng, MAP_WORLDS);
             let cfg = base_cfg(rng, 3);
-            let mut g = gen(Family::Map, universe, with(MAP_BUILD, &[(Kd::WithCapacity, 6), (Kd::New, 2), (Kd::DropSlot, 2), (Kd::Reserve, 8), (Kd::FillNoAlloc, 8), (Kd::Clear, 4), (Kd::Drain, 4), (Kd::ShrinkTo, 8), (Kd::ShrinkToFit, 4), (Kd::Remove, 10)], rng));
+            let mut g = gen(Family::Map, universe, with(MAP_BUILD, &[(Kd::WithCapacity, 6), (Kd::New, 2), (Kd::DropSlot, 2), (Kd::Reserve, 8), (Kd::FillNoAlloc, 8), (Kd::Clear, 4), (Kd::Drain, 4), (Kd::ShrinkTo, 8), (Kd::ShrinkToFit, 4), (Kd::Remove, 10), (Kd::Extend, 4), (Kd::Par, 3)], rng));
             g.macro_den = *rng.pick(&[10, 20]);
             RunSpec { world, cfg, gen: g, n_ops }
         }
@@ -435,7 +435,7 @@ fn spec_for_inner(prop: &str, thorough: bool, rng: &mut Rng) -> RunSpec {
             RunSpec { world, cfg, gen: g, n_ops }
         }
         "C15" => {
-            let world = pick_world(rng, &[("M16", 5), ("Mpod", 2), ("M208", 1), ("M64a", 1), ("Mz", 2)]);
+            let world = pick_world(rng, &[("M16", 5), ("Mpod", 2), ("M208", 1), ("M64a", 1), ("Mz", 2), ("Ms", 3)]);
             let mut cfg = base_cfg(rng, 3);
             if rng.below(3) == 0 {
                 // an equality that matches several entries: only "never alias" is then checked
